@@ -95,6 +95,13 @@ func main() {
 		}
 		results = append(results, eng.verifyLemma(lt))
 	}
+	var bounded []boundedResult
+	for _, bt := range eng.bounded {
+		if !serves(bt.c.Props) || *funcs != "" && !strings.Contains(bt.c.Ref, *funcs) {
+			continue
+		}
+		bounded = append(bounded, eng.runBounded(bt))
+	}
 	var all []*Obligation
 	for _, r := range results {
 		all = append(all, r.Obligations...)
@@ -109,7 +116,7 @@ func main() {
 			}
 		}
 	}
-	rep := &report{eng: eng, results: results, tier: *tier, want: want, verbose: *verbose, lockMode: *lockMode,
+	rep := &report{eng: eng, results: results, bounded: bounded, tier: *tier, want: want, verbose: *verbose, lockMode: *lockMode,
 		noReplay: *noReplay, start: start, genSecs: genSecs}
 	os.Exit(rep.finish())
 }
